@@ -11,7 +11,9 @@ RULE = ("explicit-state BFS over histories of stream-cipher contexts: letters pr
         "frontier is empty within 4 blocks + 1 consumed per seek; involution is checked with a second context fed the model ciphertext; "
         "DRG: every sequence of {bytes<N>, fill_bytes<N>(prior), fill_slice(l, prior), u32, u64} to the depth bound against a cursor into "
         "the ChaCha<R>(seed, 0) keystream with prior buffer contents {00.., FF.., pattern}; non-trivial = some call with length > 0"
-        " Also: every DRG request size 0..=140 at cursor 0 and 4 for rounds 8/12/20; buffer placement: after a first piece of every length class mod 8, a second piece of every length 1..=24 (+30, 63, 64, 65, 130) whose buffer starts at every address offset mod 8 (+8, 16, 33) from a 64-byte boundary, in place and with separate input / output buffers at equal and at different offsets, and the DRG's fill_slice likewise; the corpus again on the checked-arithmetic, +sse4.1 and native builds.")
+        " Also: every DRG request size 0..=140 at cursor 0 and 4 for rounds 8/12/20; buffer placement: after a first piece of every length class mod 8, a second piece of every length 1..=24 (+30, 63, 64, 65, 130) whose buffer starts at every address offset mod 8 (+8, 16, 33) from a 64-byte boundary, in place and with separate input / output buffers at equal and at different offsets, and the DRG's fill_slice likewise; the corpus again on the checked-arithmetic, +sse4.1 and native builds."
+        " Interference: one history per object type with the programs of every other object type (25 bystander programs: hash contexts, one-shots, MACs, legacy digests, stream ciphers, DRG, AEAD, KDFs, Argon2, X25519, Ed25519) woven between its steps, round-robin and whole-program-after-every-step."
+        " Many calls: 66000 one-byte / three-byte / empty process calls on one context of every variant.")
 ASSUMPTIONS = ["python keystream models as in C03", "DRG u32/u64 are the next 4/8 keystream bytes read big-endian (documented convention of this commit)",
                "content alphabet for keys, nonces, seeds, inputs and prior buffer contents"]
 
@@ -194,6 +196,8 @@ def _own_shards(tier):
     sh.append(("shard_drg_sizes", None))
     for v in VARIANTS:
         sh.append(("shard_align", (v, 20)))
+    sh.append(("shard_interference", None))
+    sh.append(("shard_many_calls", None))
     return sh
 
 
@@ -251,6 +255,56 @@ def shard_align(arg, tier):
                 cases.append(([dnew, "drg_fill_slice s0 @%d:%s" % (a, P(1, 7, n)), "drg_fill_slice s0 @%d:%s" % ((a + 5) % 8, P(5, 7, 19))],
                               ["-", obs_of(dm.keystream(0, 0, n)), obs_of(dm.keystream(n // 64, n % 64, 19))], {"n": n}))
     ck.run(cases, nontrivial=_nt)
+    ck.stats.states += len(cases)
+    return ck.stats
+
+
+def shard_interference(_, tier):
+    """a position history of every variant (process, seek where there is one, process_mut, clone, probe) with the programs of every other
+    object type (props/common.py: bystanders) woven between its steps, two ways"""
+    from .common import interference_cases
+    ck = core.Checker(PROPERTY_ID)
+    own = []
+    for v, (kl, nl, bits) in VARIANTS.items():
+        model = stream.Stream(v, 20, pat(6, 1, kl), pat(7, 2, nl))
+        ops = ["cnew s0 %s 20 %s %s" % (v, P(6, 1, kl), P(7, 2, nl)), "process s0 %s" % P(5, 0, 5)]
+        exp = ["-", obs_of(stream.xor(pat(5, 0, 5), model.keystream(0, 0, 5)))]
+        blk, off = 0, 5
+        if bits == 32:
+            ops.append("seek s0 7")
+            exp.append("-")
+            blk, off = 7, 0
+        ops += ["process_mut s0 %s" % P(5, 9, 70), "cclone s0 s1", "process_mut s1 %s" % P(5, 3, 60), "cprobe s0 65"]
+        exp += [obs_of(stream.xor(pat(5, 9, 70), model.keystream(blk, off, 70))), "-",
+                obs_of(stream.xor(pat(5, 3, 60), model.keystream(blk + (off + 70) // 64, (off + 70) % 64, 60))),
+                obs_of(model.keystream(blk + (off + 70) // 64, (off + 70) % 64, 65))]
+        own.append((ops, exp, None))
+    dm = stream.Stream("chacha", 20, pat(5, 0, 32), bytes(12))
+    own.append((["drgnew s0 20 %s" % P(5, 0, 32), "drg_u32 s0", "drg_fill_slice s0 %s" % P(1, 7, 70), "drg_u64 s0"],
+                ["-", str(int.from_bytes(dm.keystream(0, 0, 4), "big")), obs_of(dm.keystream(0, 4, 70)), str(int.from_bytes(dm.keystream(1, 10, 8), "big"))], None))
+    cs = interference_cases(own)
+    ck.run(cs, nontrivial=lambda ops, meta: True)
+    ck.stats.states += len(cs)
+    return ck.stats
+
+
+def shard_many_calls(_, tier):
+    """very many calls on one context: 66000 one-byte and three-byte calls (more than 2^16 calls, more than 1000 blocks), 66000 empty
+    calls between real ones; the answer of the last call and the next 65 keystream bytes are compared with the model position"""
+    ck = core.Checker(PROPERTY_ID)
+    cases = []
+    n = 66000
+    for v, (kl, nl, bits) in VARIANTS.items():
+        model = stream.Stream(v, 20, pat(6, 1, kl), pat(7, 2, nl))
+        new = "cnew s0 %s 20 %s %s" % (v, P(6, 1, kl), P(7, 2, nl))
+        for w in (1, 3):
+            pos = (n - 1) * w
+            last = stream.xor(pat(5, 0, w), model.keystream(pos // 64, pos % 64, w))
+            end = n * w
+            cases.append(([new, "process_rep s0 %s %d" % (P(5, 0, w), n), "cprobe s0 65"], ["-", obs_of(last), obs_of(model.keystream(end // 64, end % 64, 65))], None))
+        cases.append(([new, "process_rep s0 h: %d" % n, "process_mut s0 %s" % P(5, 0, 5), "process_rep s0 h: %d" % n, "cprobe s0 65"],
+                      ["-", "e", obs_of(stream.xor(pat(5, 0, 5), model.keystream(0, 0, 5))), "e", obs_of(model.keystream(0, 5, 65))], None))
+    ck.run(cases, nontrivial=lambda ops, meta: True)
     ck.stats.states += len(cases)
     return ck.stats
 
